@@ -426,7 +426,7 @@ Theorem spec_ok_model c : kf c = 0%N -> spec_ok c (model_obs c) = true.
 Proof.
   intros Hk. unfold spec_ok, model_obs. rewrite Hk. simpl N.eqb. rewrite andb_true_r.
   set (g1 := c_g1 c). set (g2 := c_g2 c).
-  unfold spec_verdicts, spec_canon, spec_diff, spec_skolem. cbn [o_iso o_toiso o_caneq o_alt1 o_alt2 o_cg1 o_cg2 o_both o_first o_second o_sk].
+  unfold spec_verdicts, spec_canon, spec_diff, spec_skolem. cbn [o_iso o_toiso o_caneq o_alt1 o_alt2 o_cg1 o_cg2 o_both o_first o_second o_sk o_skv].
   fold g1 g2. rewrite !eqb_reflx, iso_dec_refl. cbn [andb].
   set (cg2 := if iso_dec g1 g2 then g1 else shift_g (N.succ (maxblank g1)) g2).
   destruct (diff_partition g1 cg2) as [A [B _]]. cbv zeta in A, B.
@@ -494,8 +494,9 @@ Proof.
   unfold spec_diff. rewrite !andb_true_iff, !iso_dec_correct, !gseteqb_spec, isnil_spec, inter_nil_disjoint. tauto.
 Qed.
 
-Theorem spec_skolem_reading c o : spec_skolem c o = true <-> iso (o_sk o) (c_g1 c).
-Proof. apply iso_dec_correct. Qed.
+Theorem spec_skolem_reading c o :
+  spec_skolem c o = true <-> iso (o_sk o) (c_g1 c) /\ iso (o_skv o) (c_g1 c).
+Proof. unfold spec_skolem. now rewrite andb_true_iff, !iso_dec_correct. Qed.
 
 (* the model is wrong in the region of finding FC14a, as the implementation is *)
 Lemma leak_refuted :
